@@ -458,3 +458,64 @@ def coalesce_copies(tree: ast.Module) -> int:
             if not done:
                 break
     return total
+
+
+# --------------------------------------------------------------------------
+# table-driven loops:  for a, b in ((x1, y1), (x2, y2)): BODY   ->   BODY[x1,y1]; BODY[x2,y2]
+# --------------------------------------------------------------------------
+
+class _SubstNames(ast.NodeTransformer):
+    def __init__(self, mapping: Dict[str, ast.AST]):
+        self.mapping = mapping
+
+    def visit_Name(self, node):
+        if isinstance(node.ctx, ast.Load) and node.id in self.mapping:
+            return ast.copy_location(copy.deepcopy(self.mapping[node.id]), node)
+        return node
+
+
+def _unroll_in_list(stmts: List[ast.stmt]) -> int:
+    n = 0
+    i = 0
+    while i < len(stmts):
+        s = stmts[i]
+        if isinstance(s, (ast.FunctionDef, ast.AsyncFunctionDef, ast.ClassDef)):
+            i += 1
+            continue
+        for fld in ("body", "orelse", "finalbody"):
+            sub = getattr(s, fld, None)
+            if isinstance(sub, list) and sub and isinstance(sub[0], ast.stmt):
+                n += _unroll_in_list(sub)
+        if isinstance(s, ast.Try):
+            for h in s.handlers:
+                n += _unroll_in_list(h.body)
+        if (isinstance(s, ast.For) and not s.orelse and isinstance(s.target, (ast.Tuple, ast.List)) and all(isinstance(t, ast.Name) for t in s.target.elts)
+                and isinstance(s.iter, (ast.Tuple, ast.List)) and 1 <= len(s.iter.elts) <= 24
+                and all(isinstance(r, (ast.Tuple, ast.List)) and len(r.elts) == len(s.target.elts) and not any(isinstance(e, ast.Starred) for e in r.elts) for r in s.iter.elts)):
+            names = [t.id for t in s.target.elts]
+            body_nodes = [x for st in s.body for x in ast.walk(st)]
+            simple = not any(isinstance(x, (ast.Break, ast.Continue, ast.Return, ast.Yield, ast.YieldFrom, ast.FunctionDef, ast.Lambda)) for x in body_nodes)
+            stores = any(isinstance(x, ast.Name) and x.id in names and not isinstance(x.ctx, ast.Load) for x in body_nodes)
+            if simple and not stores:
+                out: List[ast.stmt] = []
+                for row in s.iter.elts:
+                    mp = dict(zip(names, row.elts))
+                    for st in s.body:
+                        new = _SubstNames(mp).visit(copy.deepcopy(st))
+                        ast.copy_location(new, row)
+                        ast.fix_missing_locations(new)
+                        out.append(new)
+                stmts[i:i + 1] = out
+                n += 1
+                i += len(out)
+                continue
+        i += 1
+    return n
+
+
+def unroll_table_loops(tree: ast.Module) -> int:
+    total = 0
+    for fn in ast.walk(tree):
+        if isinstance(fn, (ast.FunctionDef, ast.AsyncFunctionDef)):
+            total += _unroll_in_list(fn.body)
+    return total
